@@ -84,6 +84,7 @@ def lm_logits_of_hash(h, V, seed, zeros):
 
 
 HASH_MOD = 1000003
+STATE_LOG = None    # while a list: the harness LMs append the `prev["h"]` they are called with
 
 
 def hash_from(h0, p):
@@ -144,6 +145,8 @@ def make_lm(V, spec, dtype):
             return {"h": torch.ones(hist.size(1), dtype=torch.long)}
 
         def calc_idx_log_probs(self, hist, prev, idx):
+            if STATE_LOG is not None:
+                STATE_LOG.append(prev["h"].detach().clone())
             h2 = step_hash(prev["h"], hist, idx)
             M = h2.size(0)
             return torch.tensor(rows_of(h2.tolist(), self.seed_, self.zeros_), dtype=dtype).view(M, V), {"h": h2}
@@ -155,6 +158,8 @@ def make_lm(V, spec, dtype):
             return {"h": torch.where(mask, prev_true["h"], prev_false["h"])}
 
     class ShapesLM(MixableSequentialLanguageModel):
+        log_states = True
+
         def __init__(self, seed, zeros):
             super().__init__(V)
             self.seed_, self.zeros_ = seed, zeros
@@ -170,6 +175,8 @@ def make_lm(V, spec, dtype):
             return self.state_of(torch.ones(hist.size(1), dtype=torch.long))
 
         def calc_idx_log_probs(self, hist, prev, idx):
+            if STATE_LOG is not None and self.log_states:
+                STATE_LOG.append(prev["h"].detach().clone())
             a = step_hash(prev["h"], hist, idx)
             L = prev["layers"]
             lay = torch.stack([torch.stack([step_hash(L[i, :, j], hist, idx) for j in range(3)], 1)
@@ -223,6 +230,7 @@ def make_lm(V, spec, dtype):
     if kind == "hist":
         return HistLM(seed, zeros)
     second = HistLM(seed + 1, False) if spec.get("second", "shapes") == "hist" else ShapesLM(seed + 1, False)
+    second.log_states = False       # inside a fusion only the first LM's states are logged
     return MixableShallowFusionLanguageModel(HashLM(seed, zeros), second, float(Fraction(spec.get("inner", "1/2"))))
 
 
@@ -380,17 +388,33 @@ class C05(PropertyCheck):
     rule = ("streams: (a) exhaustive {0,-inf}-logit grid V=1 T<=3 x widths; (b) random module runs on {0,-inf} "
             "logits (softmax = 1/2^k, exact) with batch 1..3, mixed lens incl. 0; (c) ctc_prefix_search_advance driven "
             "directly with probabilities k/16 (zeros included) and per-prefix extension probabilities; (d) tolerance: "
-            "random logits f32/f64 with a stateful hash LM, beta in {0,1/4,1/2,1}, plain and valid-mixture fusion; "
-            "(e) malformed inputs. T 0..5, V 1..3, width 1..50. non-trivial: an extension was merged into an existing "
-            "prefix, or width != number of live candidates at some frame; distinct by the case JSON")
+            "random logits f32/f64 with stateful harness LMs (state = rolling hash in one tensor / in three tensors of "
+            "different shapes, dtypes and batch axes / none: history re-read / the library's MixableShallowFusion of "
+            "two of them), initial LM state given by the caller or not, beta in {0,1/4,1/2,1} (0 and 1 also as int), "
+            "plain and valid-mixture fusion; (e) malformed inputs; (f) HISTORIES: module runs (tolerance) and directly "
+            "driven runs (exact grid k/16, k/64) on peaky near-one-hot frames with repeated tokens, narrow beams 2..5, "
+            "T 4..7, steered by rejection sampling on a plain-float prefix-beam recursion (generator aid only) towards "
+            "runs in which a prefix is pruned below a longer one that stays, re-enters as a fresh extension (refill) "
+            "and its extension is merged into the longer prefix (remerge); the directly driven runs may change the "
+            "width at every call; (g) the step function started from an arbitrary well-formed state given by the "
+            "caller (beams with missing links, slots without a prefix carrying junk, junk last token of the empty "
+            "prefix, token buffer taller than the prefixes), 1-3 calls with changing widths. Module options varied "
+            "everywhere: memory layout of logits (contiguous / permuted storage / slice of a wider buffer / strided), "
+            "lens None / int64 / int32 / strided, autograd on. T 0..7, V 1..3, width 1..50. non-trivial: width != "
+            "number of live candidates at some frame; distinct by the case JSON. "
+            "(CTCPrefixSearch / ctc_prefix_search_advance have no blank-index or batch_first option: blank is index V, "
+            "logits are (T, N, V+1).)")
     assumptions = [
         "float rounding is not modelled: exact streams use float-exact domains (compared as rationals), the tolerance "
         "stream hands torch's own softmax / fused values to the model and compares within 2e-5 (f32) / 1e-10 (f64)",
         "topk: any maximal-K selection in non-increasing order; the implementation's selection is given to the model, "
         "which checks that it is a legitimate top-K of the candidate totals",
-        "the language model is an arbitrary function of the prefix (harness LM: stateful rolling hash); its state "
-        "handling contract (extract_by_src / mix_by_mask) is exercised, the LM itself is not verified",
+        "the language model is an arbitrary function of (initial context, prefix) (harness LMs: stateful rolling hash "
+        "in several state layouts); its state handling contract (extract_by_src / mix_by_mask) is exercised — the state "
+        "every slot is given at every call is compared with the Lean model's routing — the LM itself is not verified",
         "cells left uninitialised by torch.empty are poisoned with two different values (inside / isolated run)",
+        "true mass by enumeration of all alignments only while (V+1)^T <= 4200 (all streams except the rare longest "
+        "history runs with V=3); the prefix-beam recursion oracle is evaluated for every case",
     ]
     exhaustive = {"quick": False, "thorough": False}
     quick_budget_s = 150
@@ -745,11 +769,14 @@ class C05(PropertyCheck):
                 extra = ({},)
             saved = _decoding.ctc_prefix_search_advance
             _decoding.ctc_prefix_search_advance = rec
+            global STATE_LOG
+            STATE_LOG = []
             try:
                 with poisoned_empty(V + 3), ctx():
                     y, y_lens, probs = search(logits, lens, *extra)
             finally:
                 _decoding.ctc_prefix_search_advance = saved
+                state_log, STATE_LOG = STATE_LOG, None
             y, y_lens, probs = y.detach(), y_lens.detach(), probs.detach()
             lens_l = [T] * N if case["lens"] is None else list(case["lens"])
             if y.shape[1:] != (N, width) or y_lens.shape != (N, width) or probs.shape != (N, width):
@@ -765,6 +792,14 @@ class C05(PropertyCheck):
                     ya, la, pa = search(logits.detach()[: lens_l[n], n: n + 1].contiguous(),
                                         None if case["lens"] is None else torch.tensor([lens_l[n]]), *ex1)
                 el["alone"] = self.result_obs(ya, la, pa, 0)
+                # the LM state every slot of this element was given at each call (stateful harness LMs)
+                if lm_spec is not None and lm_spec.get("kind", "hash") != "hist" and len(state_log) == len(rec.calls) \
+                        and not lm_spec.get("vocab"):
+                    el["lm_h0"] = 1 if h0s is None else h0s[n]
+                    el["lm_states"] = []
+                    for c, hl in zip(rec.calls, state_log):
+                        Kp = c["in"][3].size(1)
+                        el["lm_states"].append([int(x) for x in hl[n * Kp:(n + 1) * Kp].tolist()])
                 elements.append(el)
             obs = {"elements": elements}
             self.attach_lm_tables(case, obs, rec.calls, lens_l, dtype)
@@ -928,6 +963,8 @@ class C05(PropertyCheck):
                              "is_prefix": init["is_prefix"]}
             # true mass by enumeration of all (V+1)^T alignments: only while that is small
             e["mass"] = self.wants_mass(case, el)
+            if el.get("lm_states") is not None:
+                e["lm_h0"] = el["lm_h0"]
             els.append(e)
         return {"op": "c05.case", "case": {"fix": not PINNED_MODEL, "V": case["V"], "width": case["width"],
                                            "elements": els}}
@@ -969,6 +1006,11 @@ class C05(PropertyCheck):
                                    f"candidate totals (violation {float(viol):.3g})")
                 if out:
                     return out[:6]
+            if a.get("lm_states") is not None and mm.get("lm_states") is not None:
+                for t, (ha, hm) in enumerate(zip(a["lm_states"], mm["lm_states"])):
+                    if ha != hm:
+                        out.append(f"n={n} t={t}: LM state given to the slots impl={ha} model(routeStates)={hm}")
+                        break
             ra, rm = a["result"], mm["result"]
             if ra["prefixes"] != rm["prefixes"] or ra["lens"] != rm["lens"] or \
                     any(not close(F(x), F(y), tol) for x, y in zip(ra["probs"], rm["probs"])):
@@ -1013,6 +1055,24 @@ class C05(PropertyCheck):
             if any(p == "inf" for p in probs):
                 fails.append((f"n={n}: +inf mass {res['probs']}", "C05.inf"))
                 continue
+            # --- the documented return values of every step: `next_is_prefix[k][k']` iff slot k's prefix is
+            # a prefix of slot k''s, `y_next_last` = last token (real slots; the state the next call relies on)
+            for t, s in enumerate(el["steps"][: el["len"]]):
+                o = s["out"]
+                real_k = [k for k in range(len(o["nb"])) if not isinstance(tot_of(o, k), str)]
+                bad = [(k, k2) for k in real_k for k2 in real_k
+                       if (o["is_prefix"][k][k2] == "1") != (o["prefixes"][k2][: len(o["prefixes"][k])] == o["prefixes"][k])]
+                if bad:
+                    k, k2 = bad[0]
+                    fails.append((f"n={n}: after frame {t} the prefix matrix says slot {k} {o['prefixes'][k]} "
+                                  f"{'is' if o['is_prefix'][k][k2] == '1' else 'is not'} a prefix of slot {k2} "
+                                  f"{o['prefixes'][k2]}", "C05.step.is_prefix"))
+                    break
+                badl = [k for k in real_k if o["prefixes"][k] and o["last"][k] != o["prefixes"][k][-1]]
+                if badl:
+                    fails.append((f"n={n}: after frame {t} slot {badl[0]} holds {o['prefixes'][badl[0]]} but its "
+                                  f"last token is reported as {o['last'][badl[0]]}", "C05.step.last"))
+                    break
             # --- shape: real prefixes distinct, blank-free, not longer than the input; order; filler
             real = [(k, tuple(res["prefixes"][k]), probs[k]) for k in range(width) if not isinstance(probs[k], str) and probs[k] > 0]
             seen = {}
